@@ -76,6 +76,20 @@ def oracle(case, limit_n):
         feas = {tuple(int(z) for z in row) for row in Xall[mask]}
         extra = sorted(feas - set(ref))
         missing = sorted(set(ref) - feas)
+        # second, independent reference: the direct walk checker on the real object
+        for x in sorted(feas)[:200]:
+            ok, why = S.walk_valid(obj, x)
+            if not ok:
+                return ("iff/accepts-non-walk", "a binary vector satisfies A x = b, x'Rx = 0 but the walk checker rejects it: " + why,
+                        {"x": list(x), "ones": [out["vars"][k] for k, z in enumerate(x) if z]}), info
+        for x in sorted(ref)[:40]:
+            for k in range(n):
+                y = list(x)
+                y[k] ^= 1
+                if S.walk_valid(obj, y)[0] != (tuple(y) in feas):
+                    return ("iff/accepts-non-walk" if tuple(y) in feas else "iff/rejects-walk",
+                            "constraints and walk checker disagree on a vector one bit away from a walk assignment",
+                            {"x": y, "ones": [out["vars"][k2] for k2, z in enumerate(y) if z]}), info
         if extra:
             return ("iff/accepts-non-walk", "a binary vector satisfies A x = b, x'Rx = 0 but is not the indicator of a walk "
                     "assignment", {"x": list(extra[0]), "ones": [out["vars"][k] for k, z in enumerate(extra[0]) if z]}), info
@@ -298,7 +312,9 @@ def run(ctx):
     ctx.assumptions.append("strict-timing oracle and theorem: depot-first histories (no set_depot on the object moves a node after arcs were stored)")
     moved_depot_probe(ctx)
     mism, err = ctx.coq_mismatches("seq", S.HEADER, "scase", "check_scase", terms, shard=28)
-    for idx, tags in mism[:3]:
+    if ctx.has_concrete():
+        mism = []                 # the breakage is already reported with a concrete failing input
+    for idx, tags in mism[:1]:
         case, out = cases[idx]
         model = ctx.coq_eval(S.HEADER, "match " + S.inst_term(case) +
                              " with Ok J => (vars J, constraint_data J, objective_data J) | Err _ => ([], Err OtherError, (0%nat, [], (0%nat, 0%nat), [])) end")
@@ -312,7 +328,9 @@ def run(ctx):
     # the theorems' hypotheses, evaluated by the model on the instances the oracle treated as inside them
     for tag, checker, sub in (("hyp", "check_hyp_case", hyp_terms), ("strict", "check_strict_case", strict_terms)):
         mm, err = ctx.coq_mismatches(tag, S.HEADER, "scase", checker, [t for _, t in sub], shard=60)
-        for j, tags in mm[:2]:
+        if ctx.has_concrete() or mism:
+            mm = []
+        for j, tags in mm[:1]:
             case, out = cases[sub[j][0]]
             ctx.violation(f"hypothesis/seq/{checker}", "an instance the harness treats as inside the theorems' hypotheses fails the model's "
                           f"boolean test of them (tags {tags}: 13 seq_ok, 11 strict_graph, 12 windows_ok)",
